@@ -505,11 +505,15 @@ def check_plain(world, hist, pred, idx, text, outp, logs):
     if pred.dead:
         return out
     printed = []
-    for line in text.split("\n"):
+    tlines = text.split("\n")
+    following = []          # per printed step: index of the line after the step line
+    for k, line in enumerate(tlines):
         m = STEP_LINE.match(line)
         if m:
             printed.append((m.group(2), m.group(3)))
+            following.append(k + 1)
     want = []
+    want_tables = []
     for sid, name, res in _results_by_scenario(logs):
         node = idx.get(sid)
         if node is None:
@@ -519,6 +523,7 @@ def check_plain(world, hist, pred, idx, text, outp, logs):
             return out
         for i in proc:
             want.append((node["steps"][i]["name"], node["steps"][i]["status"]))
+            want_tables.append((sid, i, node["steps"][i].get("table")))
     if printed != want:
         # find first difference
         k = 0
@@ -526,7 +531,80 @@ def check_plain(world, hist, pred, idx, text, outp, logs):
             k += 1
         out.append(V("C15", "plain-steps", "differs", file=outp, at=k,
                      printed=printed[k:k + 3], model=want[k:k + 3], n_printed=len(printed), n_model=len(want)))
+        return out
+    # step tables shown below their step read back (Gherkin cell rules) as the model's table
+    if world["cfg"].get("multiline", True):
+        for n_, ((sid, i, tbl), at) in enumerate(zip(want_tables, following)):
+            if not isinstance(tbl, dict):
+                continue
+            rows = [tbl["headings"]] + tbl["rows"]
+            # the table is printed last for its step (after status and error message): the last
+            # len(rows) lines of the final run of row-like lines before the next step line
+            end = following[n_ + 1] - 1 if n_ + 1 < len(following) else len(tlines)
+            last = None
+            for k in range(at, end):
+                if split_gherkin_row(tlines[k]) is not None or tlines[k].lstrip().startswith("|"):
+                    last = k
+            if last is None:
+                block = []
+            else:
+                block = tlines[max(at, last + 1 - len(rows)):last + 1]
+            got = [split_gherkin_row(l) for l in block]
+            model = [[c.strip() for c in r] for r in rows]
+            if got != model:
+                k = 0
+                while k < min(len(got), len(model)) and got[k] == model[k]:
+                    k += 1
+                out.append(V("C15", "plain-table", "differs", file=outp, scen=sid, idx=i, row=k,
+                             printed=block[k] if k < len(block) else None, model=model[k] if k < len(model) else None))
+                break
     return out
+
+
+def log_filter_must_capture(spec, logger):
+    """--logging-filter: a record MUST be in the capture when every reading of the documented
+    rule keeps it (names are included, '-names' excluded; behave matches names exactly, the
+    documentation also speaks of sub-loggers; what a mixed list does with a logger it does not
+    name is not defined): the logger is named by an include (or there are only excludes) and
+    neither it nor one of its parents is excluded."""
+    if not spec:
+        return True
+    name = logger or "root"
+    inc = [x for x in spec.split(",") if x and not x.startswith("-")]
+    exc = [x[1:] for x in spec.split(",") if x.startswith("-")]
+    for x in exc:
+        if name == x or name.startswith(x + "."):
+            return False
+    if inc:
+        return name in inc
+    return True
+
+
+def split_gherkin_row(line):
+    """Cells of one '| a | b |' line by the Gherkin rules: an unescaped '|' separates,
+    backslash-pipe, backslash-backslash and backslash-n are escapes.  None if it is no row."""
+    t = line.strip()
+    if len(t) < 2 or not t.startswith("|"):
+        return None
+    cells, cur, k = [], [], 1
+    closed = False
+    while k < len(t):
+        ch = t[k]
+        if ch == "\\" and k + 1 < len(t) and t[k + 1] in "|\\n":
+            cur.append({"|": "|", "\\": "\\", "n": "\n"}[t[k + 1]])
+            k += 2
+            continue
+        if ch == "|":
+            cells.append("".join(cur).strip())
+            cur = []
+            closed = True
+        else:
+            cur.append(ch)
+            closed = False
+        k += 1
+    if not closed:
+        return None
+    return cells
 
 
 DOTS = {"passed": ".", "failed": "F", "error": "E", "hook_error": "H", "skipped": "S", "untested": "_",
@@ -863,7 +941,7 @@ def check_C18(world, hist, pred):
             present = m["m"] in msg
             if mine and not present:
                 if m["stream"] == "log":
-                    if cfg.get("logging_filter") or LEVELS[m["level"]] < level:
+                    if LEVELS[m["level"]] < level or not log_filter_must_capture(cfg.get("logging_filter"), m.get("logger")):
                         continue
                 out.append(V("C18", "report-missing-marker", m["stream"], scen=sid, marker=m["m"],
                              marker_seq=m["seq"], step_seq=fev["seq"]))
